@@ -12,8 +12,9 @@
      frn           PackageSet.__findResultNodes
      query_tree    PackageSet.queryTreePath after parsing                      *)
 From Coq Require Import List NArith Bool Arith.
-Require Import BobV.C18.Model BobV.C18.Proofs.
+Require Import BobV.Gen.ConstsC18 BobV.C18.Model BobV.C18.Proofs.
 Import ListNotations.
+Local Open Scope nat_scope.
 
 (* The worklist loops of the (direct-)descendant and ancestor axes compute
    exactly the transitive closure of the (direct) dependency relation (this
@@ -73,11 +74,14 @@ Theorem error_only_when_empty : forall g sv, wf_graph g -> forall mode q qa,
   forall m, ~ sem_path g sv q root m.
 Proof. exact query_tree_error_proof. Qed.
 
-(* The invariant behind the reported paths: after evalForward every context
-   package is connected to the root by a path that stays inside 'valid' (this
-   is what __findIntermediateNodes and __findReachableSubset have to
-   guarantee), and reported stacks never leave 'valid'. *)
-Theorem result_paths_inside_valid : forall g sv, wf_graph g -> forall mode q,
+(* PARTIAL.  The third clause of the property ("each result is reported with a
+   real path that passes through the intermediate steps of the query") holds
+   only in this weak form: after evalForward every context package is
+   connected to the root by a path that stays inside the node set 'valid'
+   (what __findIntermediateNodes and __findReachableSubset have to guarantee),
+   and reported stacks never leave 'valid'.  The full statement and what is
+   missing are given with result_paths_through_steps_refuted below. *)
+Theorem result_paths_through_steps_partial : forall g sv, wf_graph g -> forall mode q,
   match eval_forward g sv mode q with
   | FOk ns valid =>
       (forall m, In m ns -> exists stk, real_path g root stk m /\ forall x, In x stk -> In x valid) /\
@@ -101,6 +105,55 @@ Proof. exact empty_mode_table_proof. Qed.
 (* Name patterns: only the star is special. *)
 Theorem glob_match_spec : forall pat s, glob pat s = true <-> gmatch pat s.
 Proof. exact glob_match_spec_proof. Qed.
+
+(* ------------------------------------------------------------------ "passes through the intermediate steps"
+   Full (strict) statement, FALSE of the faithful model and of the implementation
+   (known finding F30):
+       forall g sv mode q qa found, wf_graph g -> query_tree g sv mode q qa = QOk found ->
+         (forall stk m, In (stk, m) found -> witness_b g sv q root stk = true) /\
+         (qa = true -> forall stk, witness_b g sv q root stk = true -> exists m, In (stk, m) found)
+   What is proved instead is [result_paths_through_steps_partial] above: reported
+   stacks are real paths to selected packages that stay inside the node set
+   'valid' collected by evalForward, in which every context package stays
+   connected to the root.  Missing: 'valid' is only a node set, so (1) a reported
+   path may use an edge between two of its nodes that no step of the query
+   walks, and (2) the shortcut 'old.issuperset(new)' of __findIntermediateNodes
+   skips the nodes between two context packages. *)
+(* witness (Proofs.v, g_f30a_w): a depends on zb and c, zb depends on c;
+   a/zb/c is answered with the path a/c, which does not pass through zb *)
+Theorem result_paths_through_steps_refuted :
+  exists g sv mode q qa found stk m,
+    wf_graph g /\ query_tree g sv mode q qa = QOk found /\ In (stk, m) found /\
+    witness_b g sv q root stk = false.
+Proof. exact result_paths_through_steps_refuted_proof. Qed.
+
+(* witness (g_f30b_w): root -> a -> w -> b, root -> b;  */descendant@b : the only
+   witness path a/w/b is missing even with queryAll (and the reported path b
+   is no witness) *)
+Theorem queryall_reports_every_witness_refuted :
+  exists g sv mode q found stk,
+    wf_graph g /\ query_tree g sv mode q true = QOk found /\
+    witness_b g sv q root stk = true /\ forall m, ~ In (stk, m) found.
+Proof. exact queryall_reports_every_witness_refuted_proof. Qed.
+
+(* DESIGN's reading "every node of valid lies on a root path that decomposes
+   along the query steps" is false as well: root -> a -> x, root -> b -> a,
+   query */x : b stays in valid (it reaches x through a), but no witness path
+   passes through b *)
+Example valid_nodes_on_witness_paths_refuted :
+  let g := [ {| n_name := []%N;     n_kids := [(1, true); (2, true)]; n_env := [] |};
+             {| n_name := [98]%N;   n_kids := [(2, true)];            n_env := [] |};
+             {| n_name := [97]%N;   n_kids := [(3, true)];            n_env := [] |};
+             {| n_name := [120]%N;  n_kids := [];                     n_env := [] |} ] in
+  let q := PCons false AChild [42]%N PNone (PCons false AChild [120]%N PNone PNil) in
+  wf_graphb g = true /\
+  (exists ns valid, eval_forward g (sval_impl g) NullGlob q = FOk ns valid /\ In 1 valid) /\
+  existsb (fun stk => memb 1 stk && witness_b g (sval_impl g) q root stk) (paths_from g 4 root) = false /\
+  existsb (fun stk => witness_b g (sval_impl g) q root stk) (paths_from g 4 root) = true.
+Proof.
+  split; [vm_compute; reflexivity|]. split; [|split; vm_compute; reflexivity].
+  eexists. eexists. split; [vm_compute; reflexivity|]. vm_compute. auto.
+Qed.
 
 (* ------------------------------------------------------------------ non-vacuity: a concrete graph
         root -> a1 -> b -> a2        names: 0 "", 1 "a1", 2 "b", 3 "lib", 4 "a2"
@@ -163,3 +216,14 @@ Example glob_nonvacuous :
   glob [97; 42; 50]%N [97; 49; 50]%N = true /\ glob [42; 98; 42]%N [108; 105; 98]%N = true /\
   glob [97; 42]%N [98; 97]%N = false /\ gmatch [97; 42]%N ([97]%N ++ [49; 50]%N).
 Proof. split; [|split; [|split]]; try (vm_compute; reflexivity). apply gm_char; [discriminate|]. apply (gm_star [] [49; 50]%N []). constructor. Qed.
+
+(* tie to the current source (tables regenerated from pathspec.py on every run):
+   the model has exactly the axes the grammar accepts and the two evaluators
+   dispatch on, and the star is the only fnmatch metacharacter (of * ? [ ] !)
+   a name test can contain *)
+Example source_tables_tie :
+  same_strs (map axis_name all_axes) AXIS_KEYWORDS = true /\
+  map axis_name all_axes = AXIS_FORWARD /\ AXIS_BACKWARD = AXIS_FORWARD /\
+  mem_N ch_star NODETEST_EXTRA = true /\
+  forallb (fun c => negb (mem_N c NODETEST_EXTRA)) [63; 91; 93; 33]%N = true.
+Proof. vm_compute. auto. Qed.
